@@ -82,14 +82,7 @@ def _unique_objects(tasks):
 
 
 def _unique_tasks(tasks):
-    m = set()
-    res = []
-    for t in tasks:
-        if t.id not in m:
-            m.add(t.id)
-            res.append(t)
-
-    return res
+    return _unique_objects(tasks)
 
 
 class _Repr:
